@@ -352,6 +352,32 @@ func runC16(c *rt.Ctx) {
 		c.Require(f.name+"-prefix-with-emittable-byte", 100)
 	}
 
+	// every history of three formatting calls over a few values and flags per formatter, on one goroutine (a formatter
+	// that remembers its last value, flags or result shows only when nothing else runs in between)
+	for fi := range fs[:5] {
+		f := &fs[fi]
+		var steps []func(w *rt.W)
+		st := &c16State{}
+		nv := f.nValues
+		if nv > 5 {
+			nv = 5
+		}
+		flags := []int{0, f.nFlags - 1}
+		if f.nFlags > 2 {
+			flags = append(flags, 1, f.nFlags/2)
+		}
+		for vi := 0; vi < nv; vi++ {
+			for _, fl := range flags {
+				vi, fl := vi, fl
+				steps = append(steps, func(w *rt.W) { c16Case(w, st, f, vi, fl, []byte(f.alphabet[0]), 3) })
+			}
+		}
+		if len(steps) > 14 {
+			steps = steps[:14]
+		}
+		tripleHistories(c, steps)
+	}
+
 	// very long results behind a prefix: numerals of several megabytes (block-wise writers copy from positions
 	// computed without the prefix), a few flags, prefixes and capacities each
 	c.Parallel("long-roman-results", 0, func(w *rt.W) {
